@@ -3,6 +3,7 @@
 package ojg
 
 import (
+	"math"
 	"strconv"
 	"time"
 )
@@ -161,6 +162,9 @@ func (c *Converter) convert(v any) (any, bool) {
 	case int32:
 		return c.convert(int64(tv))
 	case uint:
+		if math.MaxInt64 < uint64(tv) { // can not be presented to an int64 function
+			break
+		}
 		return c.convert(int64(tv))
 	case uint8:
 		return c.convert(int64(tv))
@@ -169,6 +173,9 @@ func (c *Converter) convert(v any) (any, bool) {
 	case uint32:
 		return c.convert(int64(tv))
 	case uint64:
+		if math.MaxInt64 < tv { // can not be presented to an int64 function
+			break
+		}
 		return c.convert(int64(tv))
 	case float32:
 		// Going through the shortest decimal that identifies the float32
